@@ -1,4 +1,5 @@
 import KG.Lemmas.Names
+import KG.Gen.C10
 /-!
 # C10 — Tenant resolution: a host resolves to at most one cluster, and the right one
 
@@ -410,6 +411,26 @@ theorem c10_verify_applied (m : Mgr) (hI : Inv lower m) (c : Str) (spec : Spec) 
   rw [h2] at h2'
   cases h2'
   exact hca
+
+/-- **c10_auth_applied** — through the wiring the proxy ships (`sniInstalled = true`), with or without a
+    control-plane client CA (`cp`, `base.requestClientCert` arbitrary): on a connection whose SNI and request host
+    are names of a cluster applied with an object that sets client CA `a`, a client certificate signed by `a` is
+    authenticated as its subject, and one signed by any other CA (another cluster's, the control plane's) is
+    rejected — never served as anonymous. -/
+theorem c10_auth_applied (m : Mgr) (hI : Inv lower m) (c : Str) (spec : Spec) (ha : Applied lower c spec m)
+    (a : Nat) (hca : spec.ca = some a) (base : TLS) (cp : Option Nat) (sni localAddr host : Str)
+    (hne : sni.isEmpty = false) (hs : lower sni ∈ objNames lower c spec)
+    (hh : lower (hostWithoutPort lower host) ∈ objNames lower c spec) (x : Nat) :
+    (wiredExchange lower m base cp true sni localAddr host (some x)).2 =
+      if x = a then AuthOutcome.user else AuthOutcome.rejected := by
+  unfold wiredExchange
+  simp only
+  rw [c10_tls_applied lower m c spec ha base sni localAddr hne hs]
+  have hv := c10_verify_applied lower m hI c spec ha host hh
+  simp only [hca, reduceCtorEq, and_false, if_false, if_true]
+  unfold proxyAuthenticate
+  simp only [Bool.not_true, Bool.and_false, Bool.false_eq_true, if_false, if_true, hv, hca, x509Authenticate]
+  by_cases hx : x = a <;> simp [hx]
 
 /-- a host that resolves to no cluster gets the base configuration and no verify options -/
 theorem c10_tls_unserved (m : Mgr) (base : TLS) (sni localAddr : Str) (hne : sni.isEmpty = false)
@@ -925,6 +946,20 @@ theorem c10_iff_port (m : Mgr) (hI : Inv asciiLower m) (c : Str) (spec : Spec) (
   · rw [iff_of_applied asciiLower m hI c spec ha,
       c10_hostport_noport asciiLower h (fun x => h1 ((mem_asciiLower_special colon (Or.inl rfl) h).1 x)),
       asciiLower_idem]
+
+/-! ### what the sequential model relies on implicitly (facts regenerated from /repo on every run) -/
+
+/-- **c10_wiring_facts** — (1) the controller starts its queue with exactly ONE worker and `SyncQueue.Run(n)`
+    starts exactly `n`: the handler invocations of a gateway form a sequence, which is what `Reachable` and every
+    theorem above quantify over (two concurrent invocations for colliding names can both pass the conflict checks);
+    (2) `ToAuthenticationConfig` installs the SNI verify-options provider by a block of its own, so that
+    `proxyAuthenticate … (sniInstalled := true)` is what the shipped proxy builds with AND without a control-plane
+    client CA (`c10_auth_applied`). -/
+theorem c10_wiring_facts :
+    KG.Gen.C10.controllerWorkers = 1 ∧
+    KG.Gen.C10.queueRunLoop = [102, 111, 114, 32, 105, 32, 58, 61, 32, 48, 59, 32, 105, 32, 60, 32, 119, 111, 114,
+      107, 101, 114, 115, 59, 32, 105, 43, 43] ∧      -- "for i := 0; i < workers; i++"
+    KG.Gen.C10.sniProviderBlockOfItsOwn = true := by decide
 
 /-! ### non-vacuity: the hypotheses of the theorems are satisfied by concrete, non-trivial histories -/
 
